@@ -62,6 +62,11 @@ pub enum Tamper {
     Future { delta: i64 },
     /// identifier shorter than namespace + author
     ShortId { len: u8 },
+    /// one signature copied over the other (both slots then hold the same bytes)
+    CopySig { namespace_over_author: bool },
+    /// a holder of the namespace secret forges new content under another author's id: valid
+    /// namespace signature, author slot filled with a copy of it (or with zeros)
+    ForgeAuthor { zeros: bool },
 }
 
 impl Tamper {
@@ -79,6 +84,8 @@ impl Tamper {
             Tamper::HashEmptyLen => "hash-empty-len".into(),
             Tamper::Future { .. } => "future".into(),
             Tamper::ShortId { .. } => "short-id".into(),
+            Tamper::CopySig { .. } => "copy-sig".into(),
+            Tamper::ForgeAuthor { .. } => "forge-author".into(),
         }
     }
     fn valid(&self) -> bool {
@@ -209,6 +216,27 @@ pub fn forge(victim: &Ent, donor: &Ent, t: &Tamper) -> Option<SignedEntry> {
             let id = m.entry.id.to_vec();
             m.entry.id = id[..(*len as usize).min(63)].to_vec().into();
         }
+        Tamper::CopySig { namespace_over_author } => {
+            if *namespace_over_author {
+                m.signature.author = m.signature.namespace;
+            } else {
+                m.signature.namespace = m.signature.author;
+            }
+        }
+        Tamper::ForgeAuthor { zeros } => {
+            // content the victim author never signed: same id, different record
+            let rec = iroh_docs::Record::new(iroh_blobs::Hash::new(b"forged-content"), 14, victim.ts);
+            let by_foreign = SignedEntry::from_parts(&w.docs[victim.d as usize], &w.foreign_author, &victim.k, rec);
+            let mut f = MSigned::from_real(&by_foreign);
+            // put the victim's author id back: the namespace signature must cover it
+            let id = iroh_docs::sync::RecordIdentifier::new(w.doc_id(victim.d), w.author_id(victim.a), &victim.k);
+            let entry = iroh_docs::Entry::new(id, iroh_docs::Record::new(iroh_blobs::Hash::new(b"forged-content"), 14, victim.ts));
+            let ns_signed = MSigned::from_real(&SignedEntry::from_entry(entry, &w.docs[victim.d as usize], &w.foreign_author));
+            f.entry = ns_signed.entry;
+            f.signature.namespace = ns_signed.signature.namespace;
+            f.signature.author = if *zeros { ([0u8; 32], [0u8; 32]) } else { ns_signed.signature.namespace };
+            m = f;
+        }
     }
     let forged = m.to_real()?;
     if forged == honest {
@@ -246,8 +274,9 @@ impl Scenario for Forge {
             13 => Tamper::NonCurve { author: rng.chance(1, 2) },
             14 => Tamper::LenZeroHash,
             15 => Tamper::HashEmptyLen,
-            16 | 17 | 18 => Tamper::Future { delta: *rng.pick(&[-1i64, 0, 1, -1000, 1000, -1, 0]) },
-            _ => Tamper::ShortId { len: rng.below(64) as u8 },
+            16 | 17 => Tamper::Future { delta: *rng.pick(&[-1i64, 0, 1, -1000, 1000, -1, 0]) },
+            18 => if rng.chance(1, 2) { Tamper::CopySig { namespace_over_author: rng.chance(1, 2) } } else { Tamper::ForgeAuthor { zeros: rng.chance(1, 3) } },
+            _ => if rng.chance(1, 3) { Tamper::ShortId { len: rng.below(64) as u8 } } else { Tamper::Future { delta: *rng.pick(&[-1i64, 0, 1]) } },
         };
         if matches!(tamper, Tamper::Future { .. }) {
             victim.ts = BASE + 5000;
@@ -347,7 +376,7 @@ async fn run(plan: &ForgePlan, cx: &mut Cx) -> Res {
     if !valid {
         cx.fault(match &plan.tamper {
             Tamper::Flip { .. } => "corrupt_bit_flip",
-            Tamper::SwapSigs | Tamper::TransplantSig { .. } | Tamper::ForeignAuthorSig | Tamper::ForeignNamespaceSig => "corrupt_signature",
+            Tamper::SwapSigs | Tamper::TransplantSig { .. } | Tamper::ForeignAuthorSig | Tamper::ForeignNamespaceSig | Tamper::CopySig { .. } | Tamper::ForgeAuthor { .. } => "corrupt_signature",
             Tamper::ForeignNamespace | Tamper::NonCurve { .. } | Tamper::ShortId { .. } => "corrupt_identifier",
             Tamper::LenZeroHash | Tamper::HashEmptyLen => "corrupt_empty_mismatch",
             Tamper::Future { .. } => "clock_skew_future_bound",
